@@ -16,6 +16,9 @@ import Proofs.Lemmas.Tlsh
 import Proofs.Lemmas.TlshRef
 import Proofs.Lemmas.TlshFinal
 import Proofs.Lemmas.Nilsimsa
+import Model.Objects
+import Proofs.Lemmas.ObjectsSound
+import Proofs.Lemmas.TlshCall
 namespace Proofs.C19
 open Model Model.Tlsh Proofs.Lemmas.Tlsh
 
@@ -305,6 +308,55 @@ theorem nilsimsa_distance_zero_iff (a b : List Nat) (hl : a.length = b.length) (
   constructor
   · intro h; exact Except.ok.inj h
   · intro h; rw [h]
+
+/-! ## ONE object, many calls: a call's digest is a function of its own arguments
+
+  `Model.Objects.TlshO` is the TLSH object as a state machine (every attribute `reset()` assigns, `update` / `final` / `digest` /
+  `from_hash` / `__call__` as steps).  `__call__` starts with `self.reset()`, and `reset()` assigns EVERY attribute the methods
+  read, so whatever the object went through — a call that returned None and left `data_len` / `checksum` behind, a forced call,
+  an `update` without digest, a reloaded digest, a `final` without `digest`, a call that stopped half way — cannot show.  The
+  `tlsh.calls` / `nilsimsa.calls` lines of the correspondence stream drive ONE real object (and the module singleton `tlsh`)
+  through such histories and compare every call with the one-shot function of that call's arguments. -/
+
+open Model.Objects in
+/-- the digest (or None, or the exception) returned by `obj(data,force)` and the state the object is left in do not depend on
+    the object's prior state: for ANY state `s` they are those of the first call on a new object of the same configuration -/
+theorem tlsh_call_ignores_state (lcap : Nat → Nat) (s : TlshO.State) (data : List Nat) (force : Bool) :
+    TlshO.step lcap s (.call data force) = TlshO.step lcap (TlshO.init s.cfg) (.call data force) := by
+  have h : TlshO.reset s = TlshO.reset (TlshO.init s.cfg) := Lemmas.ObjectsSound.tlsh_reset_eq s (TlshO.init s.cfg) rfl
+  unfold TlshO.step
+  simp only [h]
+
+open Model.Objects in
+/-- … in particular after ANY history of public calls (`update`, `final`, `digest`, `from_hash`, `reset`, other calls) from
+    ANY starting state -/
+theorem tlsh_call_ignores_history (lcap : Nat → Nat) (s : TlshO.State) (hist : List TlshO.Op) (data : List Nat) (force : Bool) :
+    (TlshO.step lcap (hist.foldl (fun st op => (TlshO.step lcap st op).1) s) (.call data force)).2
+      = (TlshO.step lcap (TlshO.init s.cfg) (.call data force)).2 := by
+  have hc : ∀ (hist : List TlshO.Op) (s : TlshO.State), (hist.foldl (fun st op => (TlshO.step lcap st op).1) s).cfg = s.cfg := by
+    intro hist
+    induction hist with
+    | nil => intro s; rfl
+    | cons op ops ih => intro s; rw [List.foldl_cons, ih, Lemmas.ObjectsSound.tlsh_cfg]
+  rw [tlsh_call_ignores_state, hc]
+
+open Model.Objects in
+/-- … and that result is the ONE-SHOT function `Model.Tlsh.tlsh` of the configuration and the call's own arguments (the function
+    the `tlsh` / `tlsh.calls` lines compare with the real code, which `tlsh_refines` equates with Spec.Tlsh): the digest bytes,
+    None, or the exception — for every valid configuration, every state of the object, every input and force flag.
+    (`Proofs.Lemmas.TlshCall.resOf` maps `.ok (some d)` / `.ok none` / `.error e` to bytes / None / the exception.) -/
+theorem tlsh_call_is_oneshot (lcap : Nat → Nat) (s : TlshO.State) (hc : s.cfg.valid = true) (data : List Nat) (force : Bool) :
+    (TlshO.step lcap s (.call data force)).2 = Lemmas.TlshCall.resOf (tlsh lcap s.cfg data force) :=
+  Lemmas.TlshCall.call_eq_tlsh lcap s hc data force
+
+/-- Nilsimsa: `obj(data)` on an object in ANY state (a dangling `update`, an `update` that stopped half way) returns the
+    one-shot digest of `data` and leaves a new object -/
+theorem nilsimsa_call_ignores_history (target : Nat) (s : Nilsimsa.St) (data : List Nat) :
+    Nilsimsa.stepOp (Nilsimsa.maketran target) s (.c data) = (Nilsimsa.St.init, some (Nilsimsa.nilsimsa target data)) := rfl
+
+/-- (non-vacuity, computed in the kernel: Proofs/C19/Calls.lean — a call that returned None leaves `data_len = 60` and a
+    non-zero checksum behind, the next call on that object returns the digest a new object returns) -/
+example (lcap : Nat → Nat) (c : Cfg) (d : List Nat) (f : Bool) := tlsh_call_ignores_state lcap (Model.Objects.TlshO.init c) d f
 
 /-! ## Non-vacuity: the hypothesis sets are inhabited by non-trivial instances -/
 
